@@ -90,7 +90,7 @@ class TableGen:
             "f32": "Float32",
         }
         pnull = {"empty": 0.0, "single": 0.2, "small_dups": 0.15, "null_heavy": 0.5, "tall": 0.2}[kind]
-        prefix = rng.randint(64, 90) if kind == "tall" else 0
+        prefix = rng.randint(64, 130) if kind == "tall" else 0  # sometimes longer than the 100 rows engines sample for schema inference
         rows = []
         ks = list(range(1, n + 1))
         rng.shuffle(ks)
